@@ -26,7 +26,9 @@ INF = 1000
 TIMEOUTS = [0]
 STOPKINDS = ("close", "abandon", "throw")
 # (as a Source, nested Sequences, first element of the Source: a callable / the iterator itself)
-BUILDS = ((False, False, None), (True, False, "callable"), (False, True, None), (True, False, "iterable"))
+# "reiterable": the first element is an object with __iter__ that is not its own iterator (a lazy reader)
+BUILDS = ((False, False, None), (True, False, "callable"), (False, True, None), (True, False, "iterable"),
+          (True, False, "reiterable"))
 
 
 class TooManyTimeouts(Exception):
@@ -76,6 +78,86 @@ class Src(object):
     next = __next__
 
 
+class ReIterable(object):
+    """A lazy flow object: iterable, but not an iterator (no __next__); reading it is counted by its Src."""
+
+    def __init__(self, src):
+        self._src = src
+
+    def __iter__(self):
+        return self._src
+
+
+class CountingList(list):
+    """A list whose reads are counted (iteration, indexing, slicing)."""
+    pulled = 0
+
+    def __iter__(self):
+        for v in list.__iter__(self):
+            self.pulled += 1
+            yield v
+
+    def __getitem__(self, i):
+        r = list.__getitem__(self, i)
+        self.pulled += len(r) if isinstance(i, slice) else 1
+        return r
+
+
+class CountingTuple(tuple):
+    pulled = 0
+
+    def __iter__(self):
+        for v in tuple.__iter__(self):
+            self.pulled += 1
+            yield v
+
+    def __getitem__(self, i):
+        r = tuple.__getitem__(self, i)
+        self.pulled += len(r) if isinstance(i, slice) else 1
+        return r
+
+
+DIRECT = ("split", "slice", "nslice", "lagk", "filter", "runif")   # elements whose run() takes any iterable
+
+
+def replay_direct(ctx, rec):
+    """A single element whose run() is called DIRECTLY on a container (Sequence.run would convert the
+    container to an iterator first): a list / tuple subclass that counts what is read from it.  The element
+    may not read more of the container at any delivery than the machine pulls."""
+    prog, n = rec["prog"], rec["n"]
+    exp_out = [fl.norm_spec_val(v) for v in rec["out"]]
+    for cls in (CountingList, CountingTuple):
+        flow = cls([(i, Ctx()) for i in range(n)])
+        out, pulls, raised, at_run = [], [], None, 0
+        with fl.quiet():
+            el = fl.build_stage(prog[0], True, use_context_el=True)
+            try:
+                with fl.time_limit(4):
+                    gen = el.run(flow)
+                    at_run = flow.pulled
+                    for v in gen:
+                        out.append(fl.project(v))
+                        pulls.append(flow.pulled)
+                        if len(out) == len(exp_out) and not rec["exhausted"]:
+                            break           # the machine was observed for MaxOut deliveries only
+            except Exception as exc:    # noqa
+                raised = exc_name(exc)
+                at_run = flow.pulled
+        ctx.evaluations += 1
+        key = "%s:direct-on-%s" % (kinds(prog), "list" if cls is CountingList else "tuple")
+        where = {"prog": prog, "n": n, "container": cls.__name__}
+        if at_run and not raised:
+            ctx.violation("work-before-demand:" + key, dict(where, read_at_run=at_run))
+        if raised or out != exp_out:
+            ctx.violation("output:" + key, dict(where, expected=exp_out, observed=out, raised=raised))
+            continue
+        over = [j for j in range(len(pulls)) if pulls[j] > rec["pulls"][j]]
+        if over:
+            ctx.violation("eager:" + key, dict(where, delivery=over[0] + 1, spec_pulls=rec["pulls"], impl_reads=pulls))
+        elif rec["exhausted"] and flow.pulled > rec["endpos"]:
+            ctx.violation("eager-at-end:" + key, dict(where, spec_end_pulls=rec["endpos"], impl_end_reads=flow.pulled))
+
+
 def build(prog, src, as_source, nested, first="callable"):
     import lena.core
     els = [fl.build_stage(st, True, use_context_el=True) for st in prog]
@@ -83,7 +165,8 @@ def build(prog, src, as_source, nested, first="callable"):
         els = [lena.core.Sequence(els[0]), lena.core.Sequence(*els[1:])]
     if as_source:
         with fl.quiet_warnings():
-            return lena.core.Source((lambda: src) if first == "callable" else src, *els)
+            head = (lambda: src) if first == "callable" else ReIterable(src) if first == "reiterable" else src
+            return lena.core.Source(head, *els)
     return lena.core.Sequence(*els)
 
 
@@ -210,7 +293,7 @@ def replay(ctx, rec, salt=0, all_stops=False):
     for k in range(0, len(exp_out)):
         for j in (range(3) if all_stops else [0]):
             stopkind = STOPKINDS[(k + n + salt + j) % 3]
-            as_source, nested, first = BUILDS[(k + 2 * n + salt + j) % 4]
+            as_source, nested, first = BUILDS[(k + 2 * n + salt + j) % len(BUILDS)]
             r = observe(prog, n, kmax, as_source, nested, first, stop=(k, stopkind))
             ctx.evaluations += 1
             lim = pulls[k - 1] if k else 0
@@ -343,6 +426,8 @@ def run(ctx):
     try:
         for rec in recs:
             replay(ctx, rec, salt=ctx.seed, all_stops=True)
+            if len(rec["prog"]) == 1 and rec["prog"][0]["t"] in DIRECT and rec["n"] != INF:
+                replay_direct(ctx, rec)
             ctx.traces += 1
             if rec["prog"] and rec["n"]:
                 ctx.distinct.add(core.canon([rec["prog"], rec["n"]]))
